@@ -1071,7 +1071,7 @@ def run(F, rep, tier):
     from . import visibility
     rep.attempt(visibility.rule, F, rep, "C07.R4")
     rep.attempt(visibility.rule_partition, F, rep, "C07.R6")
-    rep.assume("layer-index arithmetic (layer_i + depth + 1, super_layers.len() + 1), value-level associativity and "
-               "self/super/$ resolution at nesting are not decided")
+    rep.assume("value-level associativity and self/super/$ resolution at nesting are not decided (the removal-marker index "
+               "arithmetic is: R8)")
     rep.trust("Jsonnet specification: field visibility of inherited fields (the right-most explicit visibility wins; default inherits)")
     return EXPLANATION
